@@ -207,6 +207,8 @@ func brRun(thr int, steps []brStep) brResult {
 			}
 			if s.op == "Ctimeout" {
 				d = 8 * time.Millisecond
+			} else if i%2 == 1 {
+				d = 2 * time.Second // a call timeout that never fires changes nothing: success and failure count as without it
 			}
 			err := cb.Call(fn, d)
 			t2 := time.Now().UnixNano()
